@@ -175,25 +175,75 @@ def run(prog: Program, res: Result, tier: str) -> None:
         "maxima": "self._moments['max']",
         "minima": "self._moments['min']",
     }
+    import copy as _copy
+    from ..dataflow import flow_of as _flow_of
+
+    def _is_f64(x: ast.AST) -> bool:
+        return norm(x) in ("np.float64", "float", "'float64'", "'f8'", "np.double")
+
+    def _cast_operand(x: ast.AST):
+        """x of `x.astype(np.float64)`, `np.float64(x)`, `np.asarray(x, dtype=np.float64)`; None if x is not such a cast."""
+        if isinstance(x, ast.Call) and isinstance(x.func, ast.Attribute) and x.func.attr == "astype" and x.args and _is_f64(x.args[0]):
+            return x.func.value
+        if isinstance(x, ast.Call) and dotted(x.func) in ("np.float64", "np.double") and len(x.args) == 1:
+            return x.args[0]
+        if isinstance(x, ast.Call) and dotted(x.func) in ("np.asarray", "np.array", "np.asanyarray") and x.args and any(k.arg == "dtype" and _is_f64(k.value) for k in x.keywords):
+            return x.args[0]
+        return None
+
+    class _StripCasts(ast.NodeTransformer):
+        def visit_Call(self, node):  # noqa: N802
+            self.generic_visit(node)
+            inner = _cast_operand(node)
+            if inner is not None:
+                return inner
+            if dotted(node.func) == "np.float_power":   # np.power evaluated in float64
+                return ast.Call(func=ast.parse("np.power", mode="eval").body, args=node.args, keywords=node.keywords)
+            return node
+
     for nm, w in want.items():
         m_ = cs.methods.get(nm)
         if m_ is None:
             raise AnalysisError(f"ChannelStats.{nm} not found")
         rets = [s for s in body_walk(m_.node) if isinstance(s, ast.Return)]
-        got = norm(rets[0].value) if len(rets) == 1 else None
         key = f"stat:{nm}"
-        if got == w:
+        fl_ = _flow_of(m_, prog)
+        full = fl_.expand(rets[0].value, fl_.cfg.node_for(rets[0])) if len(rets) == 1 and rets[0].value is not None else None
+        # the textbook form, modulo temporaries, operand order and float64 conversions (which do not change the value)
+        got = canon(_StripCasts().visit(_copy.deepcopy(full))) if full is not None else None
+        if got is not None and got == canon(w):
             res.ok("R4", m_, rets[0], f"{nm} = {w[:70]}", key=key)
         else:
-            # tolerate algebraically irrelevant rewrites only for the unguarded ones
             guarded = nm in ("skew", "kurtosis")
-            if guarded and got is not None and "where=self._moments['m2'] != 0" in got and "out=np.zeros_like" in got:
-                res.bad("R4", m_, rets[0], f"{nm} is `{got[:160]}`, expected `{w[:160]}`", key=key)
+            shown = norm(rets[0].value)[:160] if rets and rets[0].value is not None else None
+            if guarded and got is not None and "where=cmp[NotEq](0, self._moments['m2'])" in got.replace("cmp[NotEq](self._moments['m2'], 0)", "cmp[NotEq](0, self._moments['m2'])") \
+                    and "out=np.zeros_like" in got:
+                res.bad("R4", m_, rets[0], f"{nm} is `{shown}`, expected `{w[:160]}`", key=key)
             elif guarded:
                 res.bad("R4", m_, rets[0] if rets else m_.node, f"{nm}: the division by a power of m2 is not guarded by where=m2 != 0 with a "
                         f"zero-filled out= (constant channels would give NaN/inf)", key=key)
             else:
-                res.bad("R4", m_, rets[0] if rets else m_.node, f"{nm} is `{got}`, expected `{w}`", key=key)
+                res.bad("R4", m_, rets[0] if rets else m_.node, f"{nm} is `{shown}`, expected `{w}`", key=key)
+        # powers of a float32 moment are taken in float64 (F60): m2**2 overflows float32 from m2 ~ 1.8e19 on, long before
+        # the ratio m4 / m2**2 leaves the float32 range - the statistic then reads -3 (or 0) for finite, correct moments
+        if full is not None:
+            for n_ in ast.walk(full):
+                base = expo = None
+                if isinstance(n_, ast.Call) and dotted(n_.func) in ("np.power", "np.float_power") and len(n_.args) >= 2:
+                    base, expo = n_.args[0], n_.args[1]
+                    if dotted(n_.func) == "np.float_power" or any(k.arg == "dtype" and _is_f64(k.value) for k in n_.keywords):
+                        continue
+                elif isinstance(n_, ast.BinOp) and isinstance(n_.op, ast.Pow):
+                    base, expo = n_.left, n_.right
+                if base is None or not (isinstance(expo, ast.Constant) and isinstance(expo.value, (int, float)) and expo.value > 1):
+                    continue
+                if "self._moments" not in norm(base):
+                    continue
+                okp = _cast_operand(base) is not None
+                (res.ok if okp else res.bad)("R4", m_, rets[0], f"{nm}: the power of the stored moment is taken in float64" if okp else
+                                             f"{nm}: `{norm(base)[:80]}` is raised to the power {expo.value} in the float32 it is stored in: the power overflows "
+                                             "(m2 above ~1.8e19) although the moments and the ratio are finite, and the statistic silently reads -3 / 0",
+                                             key=f"stat:{nm}:power-precision")
     res.trusted_base += ["exact rational arithmetic: the identities hold before float32 rounding",
                          "numba evaluates the recurrences in the written statement order"]
     # ---- R2 (cont.) the identities above are over the rationals; in the kernel the counts are integers: a third (or higher) power
@@ -268,7 +318,15 @@ MUTANTS = [
     {"id": "c10-var-n-minus-1", "file": SF, "expect": "C10.R4",
      "old": "        return self._moments[\"m2\"] / self.nsamps", "new": "        return self._moments[\"m2\"] / (self.nsamps - 1)"},
 ]
+MUTANTS += [
+    {"id": "c10-revert-F60-kurtosis", "file": "sigpyproc/core/stats.py", "expect": "C10.R4",
+     "old": "                np.power(m2, 2.0),\n", "new": "                np.power(self._moments[\"m2\"], 2.0),\n"},
+    {"id": "c10-revert-F60-skew", "file": "sigpyproc/core/stats.py", "expect": "C10.R4",
+     "old": "            np.power(m2, 1.5),\n", "new": "            np.power(self._moments[\"m2\"], 1.5),\n"},
+]
 TWINS = [
+    {"id": "c10-twin-kurtosis-float-power", "file": "sigpyproc/core/stats.py",
+     "old": "                np.power(m2, 2.0),\n", "new": "                np.float_power(self._moments[\"m2\"], 2.0),\n"},
     {"id": "c10-twin-update-regroup", "file": KF,
      "old": "    term = delta * delta_n * (n - 1)\n\n    m1 += delta_n\n    m4 +=", "new": "    term = (n - 1) * delta_n * delta\n\n    m1 = m1 + delta_n\n    m4 +="},
     {"id": "c10-twin-merge-m1", "file": KF,
